@@ -231,6 +231,11 @@ def step : Step Installed := fun st fs impl =>
     match parseAll psdk rest with
     | none => (.none, "bad-op", "-")
     | some p =>
+      -- The property only speaks about policies the translator accepts.  A policy that repeats a rule name
+      -- within a list may legitimately be rejected (that is the suggested fix of F4): follow the
+      -- implementation there instead of reporting a divergence; everything else is compared.
+      let dup := Authz.Spec.lastWins p.deny != p.deny || Authz.Spec.lastWins p.allow != p.allow
+      if dup ∧ impl = "builderr" then (.failed, "*", "-") else
       match newStatic p with
       | some c => (.sdk p c, "built", "-")
       | none => (.failed, "builderr", "-")
